@@ -7,16 +7,34 @@ From PV Require Import History Solver SolverProofs Interp Inputs InputsProofs.
 Import ListNotations.
 Local Open Scope nat_scope.
 
-(* The full-strength statement: for every network, solver, hierarchy depth and every list of inputs in an accepted
-   form, run() returns the trajectory driven by spec_u.  FALSE of the faithful model: C08_refuted_depth2 (loud).
-   Proved below: the pointwise theorems (what every input delivers to every unit at every step, for all arrays and
-   target lists) and the composition with the integrator; the lifting of the pointwise theorems to whole
-   trajectories of arbitrary networks (run_inputs = Rows spec_run_inputs under inputs_guard) is NOT proved here, it
-   is tied by the correspondence run only. *)
+(* The full-strength statement: for every network of integrators, solver, hierarchy depth and every list of inputs
+   in an accepted form, run() returns the trajectory driven by spec_u.  FALSE of the faithful model because of the
+   loud class D30 (C08_refuted_depth2); with the depth guard added it is C08_run_partial, proved below for whole
+   runs of any length. *)
 Definition C08_full_statement : Prop :=
   forall s vectorize depth T dt W inputs x0,
     forallb (input_ok vectorize (rnd (T / dt))) inputs = true -> rows_fit T dt dt = true -> frame_ok T dt (length x0) = true ->
     run_inputs s vectorize depth T dt W inputs x0 = Rows (spec_run_inputs s T dt W inputs x0).
+
+(* -------- whole runs -------- *)
+(* guards: inputs_guard = depth_ok (depth < 2 or no inputs) + every input in an accepted form, long enough, target
+   list without repetition; rows_fit / frame_ok are C03's guards (here dts = dt) *)
+Theorem C08_run_partial : forall s vectorize depth T dt W inputs x0,
+  inputs_guard vectorize depth T dt inputs = true -> rows_fit T dt dt = true -> frame_ok T dt (length x0) = true ->
+  run_inputs s vectorize depth T dt W inputs x0 = Rows (spec_run_inputs s T dt W inputs x0).
+Proof. exact run_inputs_partial. Qed.
+Print Assumptions C08_run_partial.
+
+(* its pointwise core: every accepted input, every unit, every step below the number of steps *)
+Theorem C08_delivered_spec : forall vectorize steps inp i k, input_ok vectorize steps inp = true -> k < steps ->
+  delivered (fun a s => sample_fixed a k s) inp i = Some (spec_value inp i k).
+Proof. exact delivered_spec. Qed.
+Print Assumptions C08_delivered_spec.
+
+Theorem C08_forcing_spec : forall vectorize steps inputs i k, forallb (input_ok vectorize steps) inputs = true -> k < steps ->
+  forcing (fun a s => sample_fixed a k s) inputs i = Some (spec_u inputs i k).
+Proof. exact forcing_spec. Qed.
+Print Assumptions C08_forcing_spec.
 
 (* -------- shape rule: (N,1) behaves like (N,) -------- *)
 Theorem C08_shape_rule : forall l, l <> [] -> normalise (A2 (map (fun v => [v]) l)) = A1 l.
